@@ -106,35 +106,40 @@ pub struct FileMode;
 pub struct FileFlags;
 pub struct FileCaps;
 pub struct FileVerifyFlags;
+/// A-HASH: SHA-256 and hex are uninterpreted functions of the bytes; RustCrypto / hex compute them
+pub uninterp spec fn sha256_spec(d: Seq<u8>) -> Seq<u8>;
+pub uninterp spec fn hex_spec(d: Seq<u8>) -> Seq<char>;
 pub mod sha2 {
-    use vstd::prelude::*;
-    pub struct Sha256;
-    pub struct Output;
+    use super::*;
+    pub struct Sha256 { pub absorbed: Ghost<Seq<u8>> }
+    pub struct Output { pub bytes: Ghost<Seq<u8>> }
     impl Sha256 {
         #[verifier::external_body]
-        pub fn default() -> Sha256 { unimplemented!() }
+        pub fn default() -> (r: Sha256) ensures r.absorbed@ == Seq::<u8>::empty() { unimplemented!() }
         #[verifier::external_body]
-        pub fn update(&mut self, data: &Vec<u8>) { unimplemented!() }
+        pub fn update(&mut self, data: &Vec<u8>) ensures final(self).absorbed@ == old(self).absorbed@ + data@ { unimplemented!() }
         #[verifier::external_body]
-        pub fn finalize(self) -> Output { unimplemented!() }
+        pub fn finalize(self) -> (r: Output) ensures r.bytes@ == sha256_spec(self.absorbed@) { unimplemented!() }
     }
 }
 pub mod hex {
+    use super::*;
     #[verifier::external_body]
-    pub fn encode(o: super::sha2::Output) -> String { unimplemented!() }
+    pub fn encode(o: sha2::Output) -> (r: String) ensures r@ == hex_spec(o.bytes@) { unimplemented!() }
 }
 '''),
     Decl(TYPES, 'struct', 'FileOptions'),
     Decl(TYPES, 'struct', 'PackageFileEntry'),
     Raw('''
 /// BTreeMap<String, PackageFileEntry>: what was added last under a key that was vacant
-pub struct FileMap { pub last_key: Ghost<Seq<char>>, pub last: Ghost<Option<PackageFileEntry>> }
+pub struct FileMap { pub last_key: Ghost<Seq<char>>, pub last: Ghost<Option<PackageFileEntry>>, pub offered: Ghost<Option<PackageFileEntry>> }
 impl FileMap {
     pub uninterp spec fn has_key(&self, k: Seq<char>) -> bool;
     /// R31: `map.entry(k).or_insert(v);` inserts v under k unless k is present
     #[verifier::external_body]
     pub fn insert_if_vacant(&mut self, k: String, v: PackageFileEntry)
         ensures !old(self).has_key(k@) ==> final(self).last_key@ == k@ && final(self).last@ == Some(v),
+            final(self).offered@ == Some(v),   // the entry handed to the map, whether or not the key was vacant
     { unimplemented!() }
 }
 pub struct DirSet { pub last: Ghost<Seq<char>> }
@@ -203,6 +208,11 @@ impl PackageBuilder {
              ('self.files.entry(cpio_path).or_insert(entry);', 'self.files.insert_if_vacant(cpio_path, entry);', 1, 'R31-BTreeMap entry().or_insert()'),
              ret()],
        spec='''    ensures
+        // C08: the digest recorded for the file is the SHA-256 of its content, the size its length, the content itself is kept
+        r is Ok ==> final(self).files.offered@ is Some
+            && final(self).files.offered@->0.sha_checksum@ == hex_spec(sha256_spec(content@))
+            && final(self).files.offered@->0.size == content@.len()
+            && final(self).files.offered@->0.content@ == content@,
         // '/'-style destination "<d>/<n>": directory "<d>/", base name "<n>", archive path ".<d>/<n>"
         forall|d: Seq<char>, n: Seq<char>| clean_dir(d) && normal_comp(n) && !old(self).files.has_key(seq!['.'] + d + slash() + n)
             && options.destination@ == #[trigger] (d + slash() + n)
@@ -250,5 +260,5 @@ pub fn canary_c06_add(b: &mut PackageBuilder, content: Vec<u8>, t: Timestamp, op
 '''),
 ] + TAIL
 
-OBLIGATIONS = {'PackageBuilder::add_data': ['C06'], 'lemma_clean_dir_shape': ['C06'], 'lemma_dest_shape': ['C06']}
+OBLIGATIONS = {'PackageBuilder::add_data': ['C06', 'C08'], 'lemma_clean_dir_shape': ['C06'], 'lemma_dest_shape': ['C06']}
 CANARIES = ['canary_c06_axioms', 'canary_c06_add']
